@@ -18,10 +18,12 @@ def gen(rng, kind):
     sets = []
     for _ in range(nds):
         coll = []
+        shift = rng.choice([0, 0, 0, 25])        # some data sets lie entirely above the others (no overlap between what successive fits learn)
         for _ in range(rng.randint(1, 5) if kind == "imager" else 2):
             pts = []
+            off = 0
             for _ in range(rng.randint(2, 5) if kind != "imager" else rng.randint(1, 6)):
-                b = rng.randint(0, 10)
+                b = rng.randint(0, 10) + shift
                 pts.append([b, b + rng.randint(1, 8)])
             coll.append(pts)
         sets.append(coll)
@@ -123,7 +125,7 @@ def spec_items(ctx, quick):
     r, behaviours = tlc.simulate_behaviours("Transformers", dict(MaxLen=6, FitKeepsFirst=False), 150 if quick else 4000, 7, ctx.seed + 5,
                                             invariants=["RefitForgets", "FitTransformIsFitThenTransform", "TransformUsesLastFit"])
     ctx.model("Transformers random behaviours (simulation mode)", r)
-    DATA = [[0, 4], [2, 10], [1, 6]]
+    DATA = [[0, 4], [2, 10], [1, 6], [14, 20]]
     for t, states in enumerate(behaviours):
         ops = []
         for st in states[1:]:
